@@ -1,10 +1,10 @@
 SPECIFICATION Spec
-CONSTANTS MaxLinks = 2
+CONSTANTS MaxLinks = 1
  Shapes = {1,2,3}
  PPPs = {1,2,9}
  S0s = {1,2,3}
  ETs = {0,1}
- Muxes = {0,1,2}
+ Muxes = {0,1}
  BIdx = {1}
  DiscardVi = "link"
  Streaming = FALSE
@@ -12,13 +12,12 @@ CONSTANTS MaxLinks = 2
  PinBos = FALSE
  PLen = 2
  ReadLens = {1,100}
- MaxCalls = 2
- Ops = {"read","raw","pcm","page"}
+ MaxCalls = 3
+ Ops = {"read","lap","raw"}
 INVARIANT NoLoopBoundHit
 INVARIANT OpenOK
 INVARIANT PositionTruth
-INVARIANT ReadContinues
 INVARIANT ReadOutcome
-INVARIANT InOrder
+INVARIANT LapOutcome
 INVARIANT SeekOutcome
 CHECK_DEADLOCK FALSE
